@@ -1,1 +1,2 @@
 pub mod version;
+pub mod strings;
